@@ -321,6 +321,12 @@ def c06(ctx, replay):
     rep = ctx.drive("closetab", ["-rows", rows, "-seed", ctx.seed])
     ctx.absorb(rep)
     ctx.extra["exhaustive"] = True
+    # two close writers queued at the frame lock at once (the application's Close and the echo of the peer's Close, both behind a
+    # data frame stalled in a full transport): each must put its own close on the wire (TraceSend), and the peer sees one of the two
+    cross = ctx.path("closecross.ndjson")
+    rep = ctx.drive("closecross", ["-n", 24 if ctx.quick() else 200, "-conn-trace", cross])
+    ctx.absorb(rep)
+    core.send_validate(ctx, cross, SIG_SEND_C06, name="TraceSend(crossing closes)")
     conc_campaign(ctx, 400 if ctx.quick() else 3000, SIG_C06)
     ctx.extra["rule"] = ("decision table written by TLC from WSBase!ValidWireCode: Close(code, reason) for every code -1..65536 and 2^31-1 with reason "
                          "lengths 0 and 123, reason lengths {0,1,122,123,124,125,130} on 20 boundary codes, peers that echo / answer another code / "
